@@ -29,18 +29,18 @@ class TGen:
             e = self.ty(depth - 1)
             return ('a', rng.randint(1, 4), e)
         if r < 0.58: return ('a', rng.randint(2, 9), ('s', 'char'))         # string-initializable
-        self.n += 1; name = 'T%d' % self.n; kind = 'S' if r < 0.88 else 'U'
+        self.n += 1; me = self.n; name = 'T%d' % me; kind = 'S' if r < 0.88 else 'U'
         ms = []
         for j in range(rng.randint(1, 4)):
             q = rng.random()
             if q < 0.2 and kind == 'S':
                 bt = rng.choice(['int', 'unsigned', 'signed char', 'unsigned long', '_Bool', 'short'])
                 w = 1 if bt == '_Bool' else rng.randint(1, {'int': 32, 'unsigned': 32, 'signed char': 8, 'unsigned long': 64, 'short': 16}[bt])
-                ms.append(('m%d_%d' % (self.n, j), ('s', bt), w))
+                ms.append(('m%d_%d' % (me, j), ('s', bt), w))
             else:
                 t = self.ty(depth - 1)
                 anon = t[0] in 'SU' and rng.random() < 0.2
-                ms.append((None if anon else 'm%d_%d' % (self.n, j), t, None))
+                ms.append((None if anon else 'm%d_%d' % (me, j), t, None))
         self.defs.append((kind, name, ms))
         return (kind, name, ms)
     def ctype(self, t, declarator):
@@ -308,8 +308,67 @@ def main():
         if o1 != o2:
             run.violation(dict(kind='initializer-value', program=open(f).read(), chibicc=o1 if o1 is not None else w1, gcc=o2), dict(area='init', construct='fam-sizeof' if i == len(CORPUS) - 1 else 'corpus-%d' % i))
 
+
+    # ---------------- address constants into aggregates (C11 6.6p9): array members, partial indexing, &member, pointer arithmetic ----------------
+    NAC = 40 if run.quick() else 300
+    def paths(t, expr, depth=0):
+        """(expression designating a subobject of g, its type) for every subobject"""
+        out = [(expr, t)]
+        if t[0] == 'a' and t[1]:
+            idx = sorted(set([0, t[1] - 1, rng.randrange(t[1])]))
+            for i in idx: out += paths(t[2], '%s[%d]' % (expr, i), depth + 1)
+        elif t[0] in 'SU':
+            for mn, mt, w in t[2]:
+                if w is not None: continue                 # no address of a bit-field
+                if mn is None: out += [p for p in paths(mt, expr, depth + 1)][1:]
+                else: out += paths(mt, '%s.%s' % (expr, mn), depth + 1)
+        return out
+    acprogs = []
+    for k in range(NAC):
+        tg = TGen(rng); t = tg.ty(3)
+        if t[0] == 's': t = ('a', rng.randint(2, 4), ('a', rng.randint(2, 3), t))
+        if t[0] == 'a' and rng.random() < 0.5: t = ('a', rng.randint(2, 3), t)
+        ps = paths(t, 'g'); rng.shuffle(ps); ps = ps[:24]
+        exprs = []
+        for e, pt in ps:
+            if pt[0] == 'a':
+                n = pt[1]; forms = ['%s' % e, '%s + %d' % (e, rng.randint(0, n)), '&%s[%d]' % (e, rng.randrange(n)), '&%s' % e, '%d + %s' % (rng.randint(0, n), e)]
+                # arithmetic on a pointer TO AN ARRAY (&row - 1) is the known finding C05-addr-of-array; it has its own probe below
+                if pt[2][0] != 'a': forms.append('&%s[%d] - %d' % (e, n - 1, rng.randint(0, n - 1)))
+                exprs += ['(char *)(%s)' % f for f in rng.sample(forms, 3)]
+            else:
+                exprs += ['(char *)&%s' % e]
+                if rng.random() < 0.3: exprs += ['(char *)&%s + %d' % (e, rng.randint(1, 3)), '(char *)(&%s + 1)' % e]
+        lines = ['int printf(const char *, ...);'] + tg.decls() + [tg.ctype(t, 'g') + ';']
+        for i, e in enumerate(exprs): lines.append('char *s%d = %s;' % (i, e))
+        lines.append('struct W { int n; char *p; } w[] = { %s };' % ', '.join('{ %d, %s }' % (i, e) for i, e in enumerate(exprs[:6])))
+        lines.append('int main(void) {')
+        lines.append('  static char *bs[] = { %s };' % ', '.join(exprs))
+        for i, e in enumerate(exprs): lines.append('  { char *a = %s; printf("%d %%ld %%ld %%ld\\n", (long)(s%d - (char *)&g), (long)(a - (char *)&g), (long)(bs[%d] - (char *)&g)); }' % (e, i, i, i))
+        for i in range(min(6, len(exprs))): lines.append('  printf("w%d %%ld\\n", (long)(w[%d].p - (char *)&g));' % (i, i))
+        lines.append('  return 0; }')
+        f = os.path.join(wd, 'ac%d.c' % k); open(f, 'w').write('\n'.join(lines) + '\n'); acprogs.append(f)
+    # probe for the known finding: &array has the type of a pointer to the first ELEMENT, so arithmetic on it is scaled by the element size
+    fpa = os.path.join(wd, 'addr_of_array.c')
+    open(fpa, 'w').write('int printf(const char *, ...);\nint g[2][3];\nchar *s0 = (char *)(&g[0] + 1);\nchar *s1 = (char *)(&g + 1);\nint main(void) { char *a0 = (char *)(&g[0] + 1); printf("%ld %ld %ld %d\\n", (long)(s0 - (char *)g), (long)(a0 - (char *)g), (long)(s1 - (char *)g), (int)sizeof(*&g)); return 0; }\n')
+    o1, w1 = build_run(fpa, 'chibicc'); o2, w2 = build_run(fpa, 'gcc'); evals += 1
+    if o2 is not None and o1 != o2:
+        run.violation(dict(kind='address-arithmetic', program=open(fpa).read(), chibicc=o1 if o1 is not None else w1, gcc=o2, how='offsets of &g[0] + 1 (static, automatic) and &g + 1 from g, sizeof *&g'), dict(area='init', construct='addr-of-array'))
+    def one_ac(f): return f, build_run(f, 'chibicc'), build_run(f, 'gcc')
+    for f, (o1, w1), (o2, w2) in pmap(one_ac, acprogs):
+        evals += 1
+        if o2 is None: run.corr_broken.append('address-constant generator produced a program gcc rejects: %s %s' % (os.path.basename(f), w2[:200])); write_replay(PID, 'addrconst_' + os.path.basename(f), open(f).read()); continue
+        nontriv += 1; count('address-constant-program')
+        if o1 is None:
+            run.violation(dict(kind='valid-address-constant-rejected', program=open(f).read(), chibicc=w1, how='every initializer is an address constant (6.6p9) accepted by gcc'),
+                          dict(area='init', construct='address-constant-rejected', partial='partial-index' if 'not a compile-time constant' in w1 else 'other'))
+        elif o1 != o2:
+            l1 = o1.split('\n'); l2 = o2.split('\n'); d = next((i for i in range(min(len(l1), len(l2))) if l1[i] != l2[i]), 0)
+            run.violation(dict(kind='address-constant-value', program=open(f).read(), first_difference='chibicc "%s" gcc "%s"' % (l1[d] if d < len(l1) else '', l2[d] if d < len(l2) else ''),
+                               how='each line: index, offset from &g of the file-scope static pointer, of the automatic pointer, of the block-scope static pointer'), dict(area='init', construct='address-constant'))
+
     cov = dict(evaluations=evals, distinct_nontrivial=nontriv, input_distribution=dist, samples=samples,
-               rule='%d generated (type, initializer) pairs: types of depth <= 3 over 14 scalar types, arrays, char arrays, structs with bit-fields and anonymous members, unions; initializers with positional prefixes, brace elision of complete sub-aggregates, designators in any order continuing positionally, index ranges followed by positional items, string literals (short, exact fit, braced), union members by designator, trailing commas, address constants (&array[k], pointer + offset, string literal + offset): each given to a file-scope static, an external, an automatic and a block-scope static object; all leaves of all four printed: chibicc = gcc, and where the generator tracks the C11 value, gcc = generator' % N,
+               rule='%d generated (type, initializer) pairs: types of depth <= 3 over 14 scalar types, arrays, char arrays, structs with bit-fields and anonymous members, unions; initializers with positional prefixes, brace elision of complete sub-aggregates, designators in any order continuing positionally, index ranges followed by positional items, string literals (short, exact fit, braced), union members by designator, trailing commas, address constants (&array[k], pointer + offset, string literal + offset): each given to a file-scope static, an external, an automatic and a block-scope static object; all leaves of all four printed: chibicc = gcc, and where the generator tracks the C11 value, gcc = generator; %d programs whose file-scope, block-scope static and automatic pointers are initialized with address constants into a generated aggregate (array members and their decay, partial indexing of multi-dimensional arrays, &member, pointer arithmetic on either side, inside struct initializers): offsets from &g, chibicc = gcc' % (N, NAC),
                traces_validated_against_impl=nontriv)
     return run.finish(cov,
         ['gcc 12 -O0 is the reference for the object values; the generator additionally tracks the value C11 6.7.9 gives each mentioned leaf and zero for the others (integers and pointers)',
